@@ -12,7 +12,7 @@ ID = "C09"
 META = {
     "technique": "runtime monitoring with fault injection: a wrapper scheduler raises once in period k (before or after the inner algorithm decided); for every period k of every generated run the real simulator is interrupted there, then resumed directly or through to_json/from_json/update_scheduler, and the completed run's recorded pilots, rates, energies, event history, iteration, peak and schedule history are compared with the uninterrupted reference; at the interruption point the loaded object is compared with the original (canonicalised registry dump, pending-queue pop order, shared-object identity)",
     "design_ref": "DESIGN.md section 6 C09",
-    "level_text": "fault_enumeration: every period in which the scheduler is invoked, of every generated scenario, is used as interruption point x {resume, JSON round trip} x {raise before / after the inner decision}; thorough adds double interruptions; all EVSE and battery classes incl. noise, pending Plugin/Unplug/Recompute events, schedule history on/off, naive and tz-aware start; the dump travels as string, by path, pathlib.Path or open file handles; default (infinite-maximum) EVSEs",
+    "level_text": "fault_enumeration: every period in which the scheduler is invoked, of every generated scenario, is used as interruption point x {resume, JSON round trip} x {raise before / after the inner decision}; thorough adds double interruptions; all EVSE and battery classes incl. noise, pending Plugin/Unplug/Recompute events, schedule history on/off, naive and tz-aware start; the dump travels as string, by path, pathlib.Path or open file handles; default (infinite-maximum) EVSEs; the public limit table edited after setup; an algorithm editing its copy of the infrastructure in place",
     "level_note": "fault model = an exception raised by the scheduling algorithm (the property's); raise-after-decision is used only with stateless inner schedulers (a stateful estimator would legitimately be advanced twice); the scheduler object is 'given again' (same object) after a load; numpy's global RNG is seeded identically for reference and interrupted run; the registry dump comparison excludes the Simulator's scheduler and signals attributes, which the code documents as not serialised",
 }
 LEVEL = "fault_enumeration"
